@@ -44,7 +44,7 @@ def shape (ep : Nat) (k : Char) : Option (String × Bool) :=
 def frameOf (ep : Nat) (ws : List (Char × Nat)) (tag id : Nat) : Option LFrame := do
   let (k, size) ← ws[tag]?
   let (pre, notify) ← shape ep k
-  pure (LFrame.of id notify (pre ++ toString tag).toUTF8.toList tag size)
+  pure { id := id, notify := notify, query := (pre ++ toString tag).toUTF8.toList, tag := tag, blen := size }
 
 /-- progress events that write `total` bytes of writer `w`'s frame in a few uneven fragments -/
 def fragments (w total : Nat) : List (Ev LFrame) :=
